@@ -69,12 +69,18 @@ def rule_document(ck: Check, repo: Repo) -> None:
     leaves = tabulate(fn, H())
     r.floor(2, "paths through bill_of_materials", got=len(leaves))
     src = ast.unparse(fn)
-    reports_def = "reports = sorted(self.file_reports, key=lambda x: x.name)" in src
-    r.instance("reports-definition", {"sorted_by_name": reports_def})
+    # `reports` is ALL file reports, in whatever order (the order of entries is not part of the property): an order wrapper
+    # around self.file_reports, without a filter
+    reports_def = re.search(r"\breports = (?:(?:sorted|list|tuple)\(self\.file_reports(?:, key=[^\n]*)?\)|self\.file_reports)\n", src + "\n") is not None
+    r.instance("reports-definition", {"all_file_reports": reports_def})
     if not reports_def:
-        r.violation(q, "report list", "`reports` must be all file reports in a deterministic (sorted) order", repo.loc(fn))
+        r.violation(q, "report list", "`reports` must be all file reports (sorted / list / tuple of self.file_reports, no filter)", repo.loc(fn))
+    def _unorder(ctx: tuple) -> tuple:
+        """loop contexts without their order wrapper: `each x in sorted(X)` and `each x in list(X)` range over the same elements"""
+        return tuple(re.sub(r"^each (.+?) in (?:sorted|list|tuple)\((.+?)(?:, key=.*)?\)$", r"each \1 in \2", c) for c in ctx)
+
     for d, leaf, _ in leaves:
-        ev = _strip(leaf.events)
+        ev = [(_unorder(c), e) for c, e in _strip(leaf.events)]
         name = show_valuation({k.split("::")[-1]: v for k, v in d.items()})
         doc = [e[1] for c, e in ev if not c and e[0] == "write"]
         rel_ctx = [c for c, e in ev if e[0] == "write" and "Relationship:" in e[1]]
@@ -107,7 +113,7 @@ def rule_document(ck: Check, repo: Repo) -> None:
             if v not in sect:
                 r.violation(q, f"file tag {k}", f"expected {v} in every file section; got {[s for s in sect if k in s]}", repo.loc(fn))
         lic_ctx = [c for c, e in ev if e[0] == "write" and "LicenseInfoInFile" in e[1]]
-        if lic_ctx and lic_ctx[0] != ("each report in reports", "each lic in sorted(report.licenses_in_file)"):
+        if lic_ctx and lic_ctx[0] != ("each report in reports", "each lic in report.licenses_in_file"):
             r.violation(q, "LicenseInfoInFile source", f"{lic_ctx}", repo.loc(fn))
         cp = [s for s in sect if "FileCopyrightText" in s]
         hc = next((v for k, v in d.items() if k.endswith("has_copyright")), None)
@@ -116,8 +122,8 @@ def rule_document(ck: Check, repo: Repo) -> None:
             r.violation(q, f"FileCopyrightText when has_copyright={hc}", f"{cp}; expected {want}", repo.loc(fn))
         # LicenseRef section
         lref = next((v for k, v in d.items() if k.endswith("is_licenseref")), None)
-        lsec = [e[1] for c, e in ev if c == ("each (lic, path) in sorted(self.licenses.items())",) and e[0] == "write"]
-        opens = [e[1] for c, e in ev if c == ("each (lic, path) in sorted(self.licenses.items())",) and e[0] == "open"]
+        lsec = [e[1] for c, e in ev if c == ("each (lic, path) in self.licenses.items()",) and e[0] == "write"]
+        opens = [e[1] for c, e in ev if c == ("each (lic, path) in self.licenses.items()",) and e[0] == "open"]
         if lref:
             for frag in ("f'LicenseID: {lic}\\n'", "'LicenseName: NOASSERTION\\n'"):
                 if frag not in lsec:
@@ -149,7 +155,9 @@ def rule_checksum(ck: Check, repo: Repo) -> None:
     facts = {
         "sha1": "file_sha1 = sha1()" in src,
         "binary": "path.open('rb')" in src,
-        "all_chunks": "for chunk in iter(lambda: fp.read(128 * file_sha1.block_size), b''): file_sha1.update(chunk)" in src,
+        # every chunk until the empty read goes into the digest (any positive chunk size; or one read() of everything)
+        "all_chunks": re.search(r"for chunk in iter\(lambda: fp\.read\((?:[1-9]\d*(?: \* file_sha1\.block_size)?|file_sha1\.block_size(?: \* [1-9]\d*)?)\), b''\): file_sha1\.update\(chunk\)", src) is not None
+        or "file_sha1.update(fp.read())" in src,
         "hexdigest": "return file_sha1.hexdigest()" in src,
     }
     mod = repo.module("reuse._util")
